@@ -6,6 +6,8 @@
 (*        raised, returned: Seq(Int) classes in input order of the kept samples, nreturned,                    *)
 (*        summary: <<wrong, total>> (test only), classes: Seq(Int) stored classes after the call]              *)
 (*   [k |-> "evaluate", raised, summary: <<wrong, total>>, labels: Seq(Int) true labels of the stored test set] *)
+(*   [k |-> "relearn", raised, classes, ranks]  after continue_dimension_wise_refinement: stored classes and the   *)
+(*        density ranks of the stored test samples under the refined estimators                                  *)
 (* inside is computed by the harness in exact rational arithmetic from the requested data and the learned range. *)
 EXTENDS Integers, Sequences, FiniteSets, SequencesExt, TraceLib
 VARIABLES tid, l, classes, labels, fails
@@ -40,6 +42,9 @@ Clauses(e) ==
                                              /\ Len(e.labels) = Len(classes)
                                              /\ e.summary[2] = Len(classes)
                                              /\ e.summary[1] = Cardinality({j \in 1..Len(classes) : classes[j] # e.labels[j]}) ]
+      [] e.k = "relearn" ->      \* continue_dimension_wise_refinement: the stored test set is classified again with the refined densities
+           [ C19_ArgMax |-> e.raised \/ (Len(e.classes) = Len(classes) /\ \A j \in 1..Len(e.classes) : IsArgMax(e.ranks[j], e.classes[j])),
+             C19_NoException |-> ~e.raised ]
       [] OTHER -> [ C19_Learned |-> TRUE ]
 Init == /\ tid \in 1..NTraces /\ l = 1
         /\ classes = Traces[tid].events[1].classes /\ labels = Traces[tid].events[1].labels
@@ -49,7 +54,7 @@ Init == /\ tid \in 1..NTraces /\ l = 1
 Next == /\ l < Len(T.events) /\ l' = l + 1 /\ tid' = tid
         /\ LET e == Ev(l + 1) IN
              /\ fails' = fails \cup FailedOf(Clauses(e), l + 1)
-             /\ classes' = IF e.k \in {"call", "test"} THEN e.classes ELSE classes
+             /\ classes' = IF e.k \in {"call", "test"} \/ (e.k = "relearn" /\ ~e.raised) THEN e.classes ELSE classes
              /\ labels' = labels
         /\ Record(tid, Len(T.events), l + 1, fails')
 Spec == Init /\ [][Next]_vars
